@@ -642,8 +642,7 @@ with parse_complete (fuel : nat) (t : tok) {struct fuel} : res (tok * Z) :=
       (if negb (mlen =? 0) || negb (msign =? 0) then
          do '(t3, op) <- base_with_modifiers t2 mlen msign; Ok (t3, op, 0)
        else
-         do '(t3, op, cplx) <-
-base_plain (parse_from f) t2;
+         do '(t3, op, cplx) <- base_plain (parse_from f) t2;
          Ok (next_token t3, op, cplx));
     (* 802–808 *)
     do '(t6, t1op6) <-
